@@ -818,6 +818,23 @@ fn misc_op(op: &str, a: &[&str]) -> R {
             });
             outs.join(";")
         }
+        // sustained CONCURRENT preparation of several distinct G2 points (16 threads): every prepared element must be the
+        // one a sequential call returns (a process-wide memo with a check-then-use race shows here)
+        ("preparestress", 2) => {
+            let mut qs = vec![];
+            for t in split_list(a[0]) { qs.push(g2::parse_aff(t)?); }
+            let iters = parse_usize(a[1])?;
+            if qs.is_empty() { return None; }
+            let refs: Vec<String> = qs.iter().map(|q| format!("{:?}", q.prepare())).collect();
+            let bad: usize = std::thread::scope(|sc| {
+                let hs: Vec<_> = (0..16usize).map(|t| { let qs = &qs; let refs = &refs; sc.spawn(move || {
+                    let mut bad = 0usize;
+                    for i in 0..iters { let j = (t + i) % qs.len(); if format!("{:?}", qs[j].prepare()) != refs[j] { bad += 1; } }
+                    bad }) }).collect();
+                hs.into_iter().map(|h| h.join().unwrap_or(usize::MAX / 64)).sum()
+            });
+            if bad == 0 { "ok".to_string() } else { format!("MISMATCH {} prepared elements differ from the sequential result", bad) }
+        }
         ("pairwith1", 2) => g1::parse_aff(a[0])?.pairing_with(&g2::parse_aff(a[1])?).show(),
         ("pairwith2", 2) => g2::parse_aff(a[1])?.pairing_with(&g1::parse_aff(a[0])?).show(),
         ("consts", 1) if a[0] == "fq" => format!("{} {} {} {} {} {}", limbs_hex(&Fq::char().0), Fq::NUM_BITS, Fq::CAPACITY, Fq::S, Fq::multiplicative_generator().show(), Fq::root_of_unity().show()),
